@@ -407,6 +407,10 @@ class ModelEnv(BaseEnv):
     def snapshot(self, path, fs=None):
         return (fs or self.fs).fs.snapshot(path)
 
+    def on_read_once(self, action):
+        """run `action()` right after the next file read through the filesystem layer has delivered its content"""
+        self.inner.after_read = lambda path: action()
+
     def stat(self, path, fs=None):
         return (fs or self.fs).fs.stat(path, follow=False)
 
@@ -576,6 +580,41 @@ class RealEnv(BaseEnv):
                     with open(full, "rb") as fh:
                         out[rel] = ("file", fh.read(), _stat.S_IMODE(st.st_mode), st.st_ino, st.st_nlink)
         return out
+
+    def on_read_once(self, action):
+        inner = self.fs.fs
+        orig = inner.open
+        done = []
+
+        def opener(path, mode="r", encoding=None, **kw):
+            f = orig(path, mode=mode, encoding=encoding, **kw)
+            if "r" in mode and not done:
+                done.append(1)
+                inner.open = orig
+                real_close = f.close
+
+                class Proxy:
+                    def __getattr__(s, n):
+                        return getattr(f, n)
+
+                    def __enter__(s):
+                        return s
+
+                    def __exit__(s, *a):
+                        s.close()
+                        return False
+
+                    def __iter__(s):
+                        return iter(f)
+
+                    def close(s):
+                        real_close()
+                        action()
+
+                return Proxy()
+            return f
+
+        inner.open = opener
 
     def stat(self, path, fs=None):
         st = os.lstat(path)
